@@ -195,7 +195,7 @@ impl SubCheck {
             thorough_mult: 30,
             tape_len: 96,
             shrink_iters: 3000,
-            case_timeout_s: 60,
+            case_timeout_s: 180,
             f: Arc::new(f),
         }
     }
